@@ -187,7 +187,7 @@ fn lexical_class(k: &RKind) -> Option<&'static str> {
 pub fn well_formed(text: &str, toks: &[STok]) -> Result<(), (String, String)> {
     let lex: Vec<RTok> = reflex::lex(text);
     let valid = reflex::is_valid(&lex);
-    let impl_toks = if valid { vec![] } else { guarded(|| spl_frontend::lexer::lex(text)).unwrap_or_default() };
+    let impl_toks = guarded(|| spl_frontend::lexer::lex(text)).unwrap_or_default();
     let mut prev_end: Option<(u32, u32)> = None;
     for (i, t) in toks.iter().enumerate() {
         if let Some((pl, pe)) = prev_end {
@@ -236,6 +236,21 @@ pub fn well_formed(text: &str, toks: &[STok]) -> Result<(), (String, String)> {
             }
         }
         prev_end = Some((t.line, t.start + want));
+    }
+    // completeness of the lexical classes: every literal token of the implementation's own
+    // lexer (decimal, hexadecimal, character - also out-of-range and malformed ones) and every
+    // keyword has a semantic token of its class
+    for x in &impl_toks {
+        use spl_frontend::tokens::TokenType as T;
+        let class = match &x.token_type {
+            T::Int(_) | T::Hex(_) | T::Char(_) => "number",
+            t if t.is_keyword() => "keyword",
+            _ => continue,
+        };
+        let pos = lsptext::position(text, x.range.start);
+        if !toks.iter().any(|t| (t.line, t.start) == pos && t.ty == class) {
+            return Err((format!("missing-{}-token", class), format!("no {} token for {:?} at {:?}", class, &text[x.range.clone()], pos)));
+        }
     }
     Ok(())
 }
@@ -439,7 +454,7 @@ pub fn run(tier: Tier) -> Report {
         let sizes: &[usize] = if tier == Tier::Quick { &[2500] } else { &[2500, 9000] };
         let huge: Vec<progs::Item> = sizes.iter().map(|n| progs::Item { family: "huge", program: progs::scale_program(40, 40, *n), focus_decl: 0 }).collect();
         // (number of statements of main = the size parameter of the generator)
-        let n_of = |it: &progs::Item| -> usize { it.program.decls.iter().map(|d| if let RDecl::Proc { name, body, .. } = d { if name == "main" { body.len().saturating_sub(3) } else { 0 } } else { 0 }).sum() };
+        let n_of = |it: &progs::Item| -> usize { it.program.decls.iter().map(|d| if let RDecl::Proc { name, body, .. } = d { if name == "main" { body.len().saturating_sub(11) } else { 0 } } else { 0 }).sum() };
         let hf: Vec<Failure> = huge
             .par_iter()
             .flat_map_iter(|it| {
@@ -463,7 +478,9 @@ pub fn run(tier: Tier) -> Report {
     let toks = Strings::new(SIGMA_TOK, tier.pick(3, 4));
     let alpha = sigma_char(true);
     let chars = Strings::new(&alpha, tier.pick(3, 4));
-    let extra: Vec<String> = vec!["// \u{e9}\u{1f600}\nproc main() { i := '\u{e9}'; } // \u{20ac}".into(), "type A = int; // x\r\n// y\r\nproc p() {}".into()];
+    let extra: Vec<String> = vec!["// \u{e9}\u{1f600}\nproc main() { i := '\u{e9}'; } // \u{20ac}".into(), "type A = int; // x\r\n// y\r\nproc p() {}".into(),
+        // literals that are out of range or malformed are still numbers
+        "proc main() { i := 99999999999; j := 0x1FFFFFFFF; k := 0x; c := 'a; }".into()];
     let all_texts: Vec<String> = (0..toks.count())
         .map(|i| toks.get_joined(i, if i % 3 == 0 { "\n" } else { " " }))
         .chain((0..chars.count()).map(|i| chars.get(i)))
